@@ -186,6 +186,38 @@ class C09(Check):
         ri = R(FC.INDEFINITE, 1, G._Size(1, 1))
         R.current = ri
         eng.claim("INDEFINITE sources are never cached", K["RenderIterator"](ri, None, P.ExactPadding(), 2, True)._cached is False)
+        # draw(): the cache setting handed to the iterator is the caller's, except that a single loop is never cached
+        loops = eng.int("draw_loops")
+        eng.assume(loops != 0)
+        cache_arg = True if bool(eng.bool("draw_cache_is_true")) else eng.int("draw_cache", 1)
+        RI = K["RenderIterator"]
+        orig = RI.__dict__["_from_render_data_"]
+        rec = []
+
+        class Stop(Exception):
+            pass
+
+        def fake(cls, renderable, render_data, render_args, padding, loops_, cache_, **kw):
+            rec.append(cache_)
+            raise Stop
+
+        RI._from_render_data_ = classmethod(fake)
+        r2 = R(n, 1, G._Size(1, 1))
+        R.current = r2
+        data = r2._get_render_data_(iteration=True)
+        try:
+            try:
+                r2._animate_(data, K["RenderArgs"](R), P.ExactPadding(), loops, cache_arg, None)
+            except Stop:
+                pass
+        finally:
+            RI._from_render_data_ = orig
+            data.finalize()
+        single = bool(loops == 1)
+        eng.claim("draw(): the iterator is created once", len(rec) == 1)
+        if len(rec) == 1:
+            eng.claim("draw(): caching is switched off for a single loop only; any other loop count (incl. infinite) keeps the caller's cache setting",
+                      (rec[0] is False) if single else (rec[0] is cache_arg))
 
     # ------------------------------------------------------------ ImageIterator
     def image_iterator(self, eng, shape):
